@@ -12,3 +12,5 @@ import Dtr.Props.C01
 #print axioms Dtr.C01_for_loop
 #print axioms Dtr.C01_loop_is_for
 #print axioms Dtr.ForRun_count
+#print axioms Dtr.C01_error_refines
+#print axioms Dtr.C01_next_yields_then_error
